@@ -233,6 +233,7 @@ class Run:
         self.at_loss = None                # snapshot taken just before a close in phase ready
         self.ifaces = {}
         self.unexpected = []
+        self.double_fire = None
 
     # -- helpers ---------------------------------------------------------------------------------------------
     def new_cb(self, late=False):
@@ -285,6 +286,8 @@ class Run:
             fn(*a)
             return None
         except Exception as e:          # noqa: BLE001
+            if type(e).__name__ == 'AlreadyCalledError':
+                self.double_fire = 'AlreadyCalledError in %s' % getattr(fn, '__name__', '?')
             return e
 
     def lose(self, reason):
@@ -731,11 +734,26 @@ def impl_view(run):
 def judge(run, sc):
     """Violations of the property statement visible in this run: list of (key, what, observed, expected)."""
     out = []
+    if run.parse_error is not None and sc.get('entries') is not None and not run.unexpected:
+        # a well-formed list (possibly without any usable address): connect() must hand back a Deferred
+        return [('connect-raised', 'connect() raised %s instead of returning a Deferred that fails' % run.parse_error,
+                 run.parse_error, 'a Deferred')]
     if run.parse_error is not None or run.unexpected:
         return out
     entries = sc.get('entries')
     nfired = len(run.fired)
+    # addresses are tried in listed order, one at a time, up to the first reachable one
+    if entries is not None:
+        nfail = sum(1 for st in sc['steps'] if st['op'] == 'af')
+        expect = [entry_target(e) for e in entries[:nfail + 1]]
+        got = [f for f in run.fx if f.startswith('at:')]
+        if got != expect:
+            # the rest of the script was written for the listed order: it no longer applies
+            return [('connect-order', 'connection attempts are not the listed addresses in order', got, expect)]
     # the connect Deferred fires at most once, and has fired once the history concluded
+    if run.double_fire:
+        out.append(('deferred-fired-twice', 'the code fired a Deferred that had fired already (AlreadyCalledError escaped): %s'
+                    % run.double_fire, run.double_fire, 'every Deferred fires once'))
     if nfired > 1:
         out.append(('connect-deferred-fired-twice', 'the Deferred returned by connect() fired %d times' % nfired,
                     run.fired, 'one firing'))
@@ -755,13 +773,6 @@ def judge(run, sc):
     elif nfired != 0:
         out.append(('connect-deferred-fired-early', 'the Deferred fired although nothing concluded the attempt',
                     run.fired, 'no firing yet'))
-    # addresses are tried in listed order, one at a time, up to the first reachable one
-    if entries is not None:
-        nfail = sum(1 for st in sc['steps'] if st['op'] == 'af')
-        expect = [entry_target(e) for e in entries[:nfail + 1]]
-        got = [f for f in run.fx if f.startswith('at:')]
-        if got != expect:
-            out.append(('connect-order', 'connection attempts are not the listed addresses in order', got, expect))
     # loss of an established connection
     al = run.at_loss
     if al is not None:
